@@ -20,7 +20,7 @@ mod verif_search {
     }
 
     #[derive(Clone, Copy, Debug, PartialEq)]
-    enum Op { SetTick(usize, u32), Remove(usize), Register(u32, u8), Ack(usize), AckUnknown }
+    enum Op { SetTick(usize, u32), Remove(usize), Register(u32, u8), Ack(usize), AckUnknown, Cleanup }
 
     const NOW: u32 = 20;
     fn ent(i: usize) -> Entity { Entity::from_raw(i as u32 + 1) }
@@ -31,6 +31,7 @@ mod verif_search {
         for t in [3u32, 7] { for sub in 0..4u8 { v.push(Op::Register(t, sub)); } }
         for k in 0..3 { v.push(Op::Ack(k)); }
         v.push(Op::AckUnknown);
+        v.push(Op::Cleanup);
         v
     }
 
@@ -45,7 +46,9 @@ mod verif_search {
                 Op::SetTick(e, t) => { real.set_mutation_tick(ent(e), Tick::new(t)); ticks.insert(e, t); }
                 Op::Remove(e) => { real.remove_entity(ent(e)); ticks.remove(&e); }
                 Op::Register(t, sub) => {
-                    let (idx, entities) = real.register_mutate_message(&mut buffer, Tick::new(t), Duration::ZERO);
+                    // messages are stamped 1 s, 5 s, 1 s, ... so that `Cleanup` (everything older than 3 s) hits some of them
+                    let stamp = Duration::from_secs(if inflight.len() % 2 == 0 { 1 } else { 5 });
+                    let (idx, entities) = real.register_mutate_message(&mut buffer, Tick::new(t), stamp);
                     if !entities.is_empty() { return Some(format!("step {step}: a freshly registered message already lists {} entities", entities.len())); }
                     let mut named = Vec::new();
                     for e in 0..2 { if sub & (1 << e) != 0 { entities.push(ent(e)); named.push(e); } }
@@ -65,6 +68,12 @@ mod verif_search {
                             }
                         }
                     }
+                }
+                Op::Cleanup => {
+                    // time-based cleanup: unacknowledged messages older than the limit are forgotten; acknowledging them
+                    // later must change nothing (the data is simply re-sent)
+                    real.cleanup_older_mutations(&mut buffer, Duration::from_secs(3));
+                    for k in 0..inflight.len() { if k % 2 == 0 { acked[k] = true; } }
                 }
                 Op::AckUnknown => { real.ack_mutate_message(Entity::PLACEHOLDER, &mut buffer, Tick::new(NOW), MutateIndex::default().advance_by_for_test(40000)); }
             }
@@ -89,7 +98,7 @@ mod verif_search {
             let p: Vec<&str> = t.split('-').collect();
             let n: Vec<u32> = p.get(1).map(|x| x.split('_').filter_map(|y| y.parse().ok()).collect()).unwrap_or_default();
             match p[0] { "SetTick" => Op::SetTick(n[0] as usize, n[1]), "Remove" => Op::Remove(n[0] as usize), "Register" => Op::Register(n[0], n[1] as u8),
-                "Ack" => Op::Ack(n[0] as usize), _ => Op::AckUnknown }
+                "Ack" => Op::Ack(n[0] as usize), "Cleanup" => Op::Cleanup, _ => Op::AckUnknown }
         }).collect()
     }
 
@@ -118,5 +127,36 @@ mod verif_search {
                 if k == len { break; }
             }
         }
+    }
+
+    /// Bounded stand-in run on every check (unit u05n): includes `cleanup_older_mutations`, which is outside Verus' subset.
+    #[test]
+    fn verif_native_u05n() {
+        if let Ok(fixed) = std::env::var("VERIF_OPS") {
+            let ops = parse(&fixed);
+            if let Some(why) = guarded(|| run(&ops)) {
+                println!("VERIF-COUNTEREXAMPLE policy=- ops={} :: {why}", show(&ops));
+                panic!("contract violated on the real code: {why}");
+            }
+            return;
+        }
+        let depth: usize = std::env::var("VERIF_DEPTH").ok().and_then(|d| d.parse().ok()).unwrap_or(4);
+        let ops = all_ops();
+        let mut explored = 0usize;
+        for len in 0..=depth {
+            let mut idx = std::vec![0usize; len];
+            loop {
+                let seq: Vec<Op> = idx.iter().map(|&k| ops[k]).collect();
+                explored += 1;
+                if let Some(why) = guarded(|| run(&seq)) {
+                    println!("VERIF-COUNTEREXAMPLE policy=- ops={} :: {why}", show(&seq));
+                    panic!("contract violated on the real code: {why}");
+                }
+                let mut k = 0;
+                while k < len { idx[k] += 1; if idx[k] < ops.len() { break; } idx[k] = 0; k += 1; }
+                if k == len { break; }
+            }
+        }
+        println!("VERIF-EXPLORED sequences={explored}");
     }
 }
